@@ -138,6 +138,92 @@ func intLitStr(s string) Term {
 	return s
 }
 
+// splitArgs splits "(f a b c)" into ["f","a","b","c"] at the top level.
+func splitArgs(t Term) []string {
+	if len(t) < 2 || t[0] != '(' || t[len(t)-1] != ')' {
+		return nil
+	}
+	body := t[1 : len(t)-1]
+	var out []string
+	d, st := 0, 0
+	for i := 0; i <= len(body); i++ {
+		if i == len(body) || (body[i] == ' ' && d == 0) {
+			if i > st {
+				out = append(out, body[st:i])
+			}
+			st = i + 1
+			continue
+		}
+		switch body[i] {
+		case '(':
+			d++
+		case ')':
+			d--
+		}
+	}
+	return out
+}
+
+func sliceProj(f string, idx int, t Term) Term {
+	if strings.HasPrefix(t, "(mkslice ") {
+		if a := splitArgs(t); len(a) == 5 {
+			return a[idx]
+		}
+	}
+	return app(f, t)
+}
+func sarrOf(t Term) Term { return sliceProj("sarr", 1, t) }
+func soffOf(t Term) Term { return sliceProj("soff", 2, t) }
+func slenOf(t Term) Term { return sliceProj("slen_", 3, t) }
+func scapOf(t Term) Term { return sliceProj("scap", 4, t) }
+
+// sidx(off, i) = off + i, kept as an uninterpreted application so that quantifier patterns over slice elements match
+// syntactically (E-matching on arithmetic terms is unreliable).
+func sidx(off, i Term) Term {
+	return app("sidx", off, i)
+}
+
+func plus(a, b Term) Term {
+	if a == "0" {
+		return b
+	}
+	if b == "0" {
+		return a
+	}
+	x, ok1 := isIntLitT(a)
+	y, ok2 := isIntLitT(b)
+	if ok1 && ok2 {
+		return intLit(x + y)
+	}
+	return app("+", a, b)
+}
+
+func minus(a, b Term) Term {
+	if b == "0" {
+		return a
+	}
+	x, ok1 := isIntLitT(a)
+	y, ok2 := isIntLitT(b)
+	if ok1 && ok2 {
+		return intLit(x - y)
+	}
+	return app("-", a, b)
+}
+
+func isIntLitT(t Term) (int64, bool) {
+	var v int64
+	if len(t) == 0 || len(t) > 15 {
+		return 0, false
+	}
+	for i := 0; i < len(t); i++ {
+		if t[i] < '0' || t[i] > '9' {
+			return 0, false
+		}
+		v = v*10 + int64(t[i]-'0')
+	}
+	return v, true
+}
+
 func sel(a, i Term) Term      { return app("select", a, i) }
 func store(a, i, v Term) Term { return app("store", a, i, v) }
 
@@ -316,6 +402,9 @@ func zeroOfSort(s string) Term {
 	case SReal:
 		return "0.0"
 	}
+	if s == "(Array Int Str)" {
+		return "zarr_Str"
+	}
 	if strings.HasPrefix(s, "(Array Int ") {
 		inner := s[len("(Array Int ") : len(s)-1]
 		return "((as const " + s + ") " + zeroOfSort(inner) + ")"
@@ -379,6 +468,10 @@ const prelude = `
     (=> (and (<= 0 r) (< r 128)) (= (sat (utf8 r) 0) r))
     (=> (not (and (<= 0 r) (< r 128))) (forall ((k Int)) (! (=> (and (<= 0 k) (< k (slen (utf8 r)))) (>= (sat (utf8 r) k) 128)) :pattern ((select (sbytes (utf8 r)) k))))))
   :pattern ((utf8 r)))))
+(declare-const zarr_Str (Array Int Str))
+(assert (forall ((k Int)) (! (= (select zarr_Str k) lit_empty) :pattern ((select zarr_Str k)))))
+(declare-fun sidx (Int Int) Int)
+(assert (forall ((o Int) (k Int)) (! (= (sidx o k) (+ o k)) :pattern ((sidx o k)))))
 ; embedded struct addressing
 (declare-fun emb (Int Int) Int)
 (declare-fun embroot (Int) Int)
